@@ -511,26 +511,62 @@ def judge(scn, allowed, *, form, probe, profile="plain", salt=0):
 SYNC_KINDS = ("immediate", "default")
 
 
-def sync_applies(scn) -> bool:
-    """take() and unbounded counts are left out: what a synchronous source still does after the downstream
-    terminated early is C14's subject, not C10's; dispose instants and faults need virtual time / are C09."""
-    return scn["cut"] == 0 and scn["dsp"] == NEVER and not scn["flt"]
+SYNC_CUT_OPS = ("concat", "for_in", "start_with", "repeat", "while_do", "do_while", "catch", "retry", "catch_handler",
+                "oern", "oern_f")
 
 
-def run_sync(scn: Dict[str, Any], *, form: str, sync: str, lib: bool, profile: str = "plain", salt: int = 0) -> Dict[str, Any]:
+def sync_applies(scn, allowed=None) -> bool:
+    """Without take: every scenario (no dispose instant, no fault).  With take(cut): the dispose-inside-delivery
+    dimension - only when the model says the cut-th element arrives at an instant > 0, i.e. after something
+    asynchronous, so that the result's disposable had already been returned when the dispose is issued (a dispose
+    issued while the outer subscribe() call is still running cannot reach anything yet: C14's subject)."""
+    if scn["dsp"] != NEVER or scn["flt"]:
+        return False
+    if scn["cut"] == 0:
+        return True
+    if allowed is None or scn["op"] not in SYNC_CUT_OPS:
+        return False
+    out = allowed[0]["out"]
+    ns = [e for e in out if e["k"] == "N"]
+    if not (len(ns) == scn["cut"] and out[-1]["k"] == "C" and ns[-1]["at"] > 0):
+        return False
+    subs = allowed[0]["subs"]
+    if scn["op"] == "do_while" and subs and subs[0]["got"] < scn["cut"]:
+        # do_while = source.concat(source.while_do(cond)): from the second run on the sources are driven by the INNER
+        # concat, whose own subscribe() call must have returned too - something asynchronous after run 2 was opened
+        return len(subs) >= 2 and ns[-1]["at"] > subs[1]["o"]
+    return True
+
+
+def run_sync(scn: Dict[str, Any], *, form: str, sync: str, lib: bool, profile: str = "plain", salt: int = 0,
+             via: str = "take") -> Dict[str, Any]:
     """The same scenario without virtual time: events at offset 0 happen inside subscribe(), the result is
     subscribed with scheduler=ImmediateScheduler() (scheduled work runs INLINE, re-entrantly) or with no
-    scheduler (current-thread trampoline: queued), later events are then delivered by hand one at a time."""
+    scheduler (current-thread trampoline: queued), later events are then delivered by hand one at a time.
+    Scenarios with take(cut): via="take" keeps the take operator, via="dispose" replaces it by an explicit
+    dispose() of the result issued from inside the delivery of the cut-th element."""
     from reactivex.scheduler import ImmediateScheduler
     cod = SeqCodec(profile, salt)
-    b = build(scn, None, cod, form, False, sync=sync, lib=lib)
+    explicit = bool(scn["cut"]) and via == "dispose"
+    b = build(dict(scn, cut=0) if explicit else scn, None, cod, form, False, sync=sync, lib=lib)
     rec: List[Tuple[int, str, Any]] = []
+    box: Dict[str, Any] = {"h": None, "want": False}
     escaped = None
+
+    def on_next(v):
+        rec.append((0, "N", v))
+        if explicit and len(rec) == scn["cut"]:
+            if box["h"] is not None:
+                box["h"].dispose()
+            else:
+                box["want"] = True
     try:
         with watchdog():
             kw = {"scheduler": ImmediateScheduler()} if sync == "immediate" else {}
-            b.ys.subscribe(on_next=lambda v: rec.append((0, "N", v)), on_error=lambda e: rec.append((0, "E", e)),
-                           on_completed=lambda: rec.append((0, "C", None)), **kw)
+            box["h"] = b.ys.subscribe(on_next=on_next, on_error=lambda e: rec.append((0, "E", e)),
+                                      on_completed=lambda: rec.append((0, "C", None)), **kw)
+            if box["want"]:
+                box["h"].dispose()
             for _ in range(10000):
                 live = [r for r in b.subrecs if not r["disposed"] and not r["done"] and r["pos"] < len(r["evs"])]
                 if not live:
@@ -543,6 +579,7 @@ def run_sync(scn: Dict[str, Any], *, form: str, sync: str, lib: bool, profile: s
     except Exception as e:
         escaped = e
     return {"rec": rec, "events": list(b.events), "calls": list(b.calls), "call_pos": b.call_pos, "cod": cod, "escaped": escaped,
+            "explicit": explicit,
             "subrecs": [{"j": r["j"], "disposed": r["disposed"], "done": r["done"]} for r in b.subrecs]}
 
 
@@ -553,6 +590,8 @@ def compare_sync(scn, exp, got) -> Optional[str]:
     if got["escaped"] is not None:
         return "hang:run did not return" if got["escaped"] == "hang" else f"escaped:{type(got['escaped']).__name__}"
     cod, rec, out = got["cod"], got["rec"], exp["out"]
+    if got.get("explicit"):
+        out = out[:-1]          # an explicit dispose() instead of take(cut): the same, without take's on_completed
     if len(rec) != len(out):
         return f"count:{len(rec)}!={len(out)}"
     for (_, k, v), e in zip(rec, out):
@@ -587,9 +626,9 @@ def compare_sync(scn, exp, got) -> Optional[str]:
     return None
 
 
-def judge_sync(scn, allowed, *, form, sync, lib, profile="plain", salt=0):
+def judge_sync(scn, allowed, *, form, sync, lib, profile="plain", salt=0, via="take"):
     try:
-        got = _confirmed(lambda: run_sync(scn, form=form, sync=sync, lib=lib, profile=profile, salt=salt))
+        got = _confirmed(lambda: run_sync(scn, form=form, sync=sync, lib=lib, profile=profile, salt=salt, via=via))
     except Exception as e:
         got = {"rec": [], "events": [], "calls": [], "call_pos": None, "cod": SeqCodec(profile, salt), "escaped": e, "subrecs": []}
     reasons = []
@@ -600,7 +639,7 @@ def judge_sync(scn, allowed, *, form, sync, lib, profile="plain", salt=0):
         reasons.append(r)
     esc = got["escaped"]
     return {"engine": "seq-sync", "op": scn["op"], "form": form, "sync": sync, "lib": lib, "profile": profile, "salt": salt,
-            "scn": scn, "expected": allowed,
+            "via": via, "dispose_inside_delivery": bool(scn["cut"]), "scn": scn, "expected": allowed,
             "observed": {"rec": [(k, repr(v)) for _, k, v in got["rec"]], "events": got["events"], "calls": got["calls"],
                          "subrecs": got["subrecs"], "escaped": (esc if isinstance(esc, str) else repr(esc)) if esc is not None else None},
             "reason": reasons[0], "reason_kind": reasons[0].split(":")[0], "has_fault": False, "disposed": False,
@@ -730,7 +769,7 @@ def _seq_job(args):
     return len(variants), fails
 
 
-def seq_variants(scn, rich: bool):
+def seq_variants(scn, rich: bool, allowed=None):
     """rich: every call form, with and without probe; otherwise two call forms per scenario, rotating with the
     scenario so that every form meets every kind of scenario across the set"""
     h = sum(map(ord, json.dumps(scn, sort_keys=True)))
@@ -744,21 +783,23 @@ def seq_variants(scn, rich: bool):
         out.append(dict(form=form, probe=probe, profile=profile, salt=h % 7))
         if rich:
             out.append(dict(form=form, probe=not probe, profile=("plain", "falsy", "ints")[(h + i + 1) % 3], salt=(h + 3) % 7))
-    if sync_applies(scn):
+    if sync_applies(scn, allowed):
         # untimed replay with synchronous sources: inline (ImmediateScheduler) and queued (default trampoline)
-        # hand-over, hand-made and library sources; one call form each (all forms when rich)
+        # hand-over, hand-made and library sources; one call form each (all forms when rich).  Scenarios with
+        # take(cut) are the dispose-inside-delivery dimension: once through take, once through an explicit dispose()
         allf = forms_for(scn)
         for i, kind in enumerate(SYNC_KINDS):
             for form in (allf if rich and kind == "immediate" else [allf[(h + i) % len(allf)]]):
-                out.append(dict(form=form, sync=kind, lib=bool((h + i) % 2), profile=("plain", "falsy", "ints")[(h + i) % 3],
-                                salt=h % 7))
+                for via in (("take", "dispose") if scn["cut"] and kind == "immediate" else ("take",)):
+                    out.append(dict(form=form, sync=kind, lib=bool((h + i) % 2), profile=("plain", "falsy", "ints")[(h + i) % 3],
+                                    salt=h % 7, via=via))
     return out
 
 
 def seq_replay(groups, rich=False, procs=8):
     """groups: (scn, allowed) or (scn, allowed, rich) triples"""
     from harness import core
-    jobs = [(g[0], g[1], seq_variants(g[0], g[2] if len(g) > 2 else rich)) for g in groups]
+    jobs = [(g[0], g[1], seq_variants(g[0], g[2] if len(g) > 2 else rich, g[1])) for g in groups]
     total, fails = 0, []
     for n, fs in core.parallel_map(_seq_job, jobs, procs=procs, chunk=100):
         total += n
@@ -775,7 +816,7 @@ def seq_nontrivial(scn, allowed):
 def seq_generic_replay(rec):
     if rec.get("engine") == "seq-sync":
         f = judge_sync(rec["scn"], rec["expected"], form=rec["form"], sync=rec["sync"], lib=rec["lib"], profile=rec["profile"],
-                       salt=rec["salt"])
+                       salt=rec["salt"], via=rec.get("via", "take"))
     elif rec.get("engine") == "seq-resub":
         f = judge_resub(rec["scn"], rec["expected"], rec["pattern"], form=rec["form"])
     else:
